@@ -1,7 +1,7 @@
 (* C08 - the strong invariant of conformant, guarded histories and the theorems that follow from it:
    the project state is characterised by the disk (Proofs/EventsRefine.v good_proj), the saved map is the project's
    error collection, and the client view of every file is exactly what the property demands. *)
-From Coq Require Import List NArith Bool Lia Permutation Sorted.
+From Coq Require Import List NArith Bool Lia Permutation Sorted PeanoNat.
 From LH Require Import Model.Diag Model.Events Spec.FreshStart Proofs.DiagProofs Proofs.EventsSets Proofs.EventsRefine Proofs.EventsTracks.
 Import ListNotations.
 Local Open Scope N_scope.
@@ -407,8 +407,7 @@ Section Inv.
       + assert (Hne : g <> f) by (intros ->; rewrite N.eqb_refl in E; discriminate).
         rewrite (fmem_frem_other g f _ Hne). rewrite Hlive1. change (syn_of w' g) with (syn_of w g).
         specialize (Iv g). unfold ps1. destruct (snd pc) eqn:Ec.
-        * assert (Hd1 : d1 = fst (push_all_again (fix12a fx) (ds (sv w)) new)) by (unfold d1; rewrite Ec; reflexivity).
-          rewrite Hsaved1.
+        * rewrite Hsaved1.
           apply push_all_file_ok; [exact Iv|apply (i_saved_ne _ _ I)|apply all_errs_nonempty| |].
           -- intros Hdty Hl.
              destruct (class_conds w w' g Hlc Hun Hdty) as [C1 _].
@@ -424,4 +423,242 @@ Section Inv.
              specialize (C2 Hl). rewrite !Hsaved_w' in C2. rewrite Hsaved1 in C2. exact C2.
         * cbn [vapply fold_left]. rewrite Hsaved1. exact Iv.
   Qed.
+
+  (* ---------- didChangeWatchedFiles with one item ---------- *)
+  Lemma did_watched_one dk (s : server A) f k : aget (live (ds s)) f = None ->
+    did_watched A fx dk s [(f, k)] =
+    let pc := handle_events A fx dk (pj s) [(f, k)] in
+    ({| pj := fst pc; cache := cache s;
+        ds := if snd pc then fst (push_all_again (fix12a fx) (ds s) (all_errs A (fst pc))) else ds s |},
+     if snd pc then snd (push_all_again (fix12a fx) (ds s) (all_errs A (fst pc))) else []).
+  Proof.
+    intros Hl. unfold did_watched. cbn [fold_left fst snd is_nil]. unfold clear_change, ahas. rewrite Hl. cbn [fst snd app pj cache ds].
+    destruct (handle_events A fx dk (pj s) [(f, k)]) as [p1 chg]. cbn [fst snd]. destruct chg.
+    - rewrite push_again_eq. cbn [ds pj cache app]. reflexivity.
+    - reflexivity.
+  Qed.
+
+  Lemma watched_common w v dk' (pc : proj A * bool) :
+    inv w v -> good_proj A dk' (fst pc) ->
+    (snd pc = false -> forall g, errs_of A (fst pc) g = errs_of A (pj (sv w)) g) ->
+    let d1 := if snd pc then fst (push_all_again (fix12a fx) (ds (sv w)) (all_errs A (fst pc))) else ds (sv w) in
+    let ps1 := if snd pc then snd (push_all_again (fix12a fx) (ds (sv w)) (all_errs A (fst pc))) else [] in
+    let w' := {| disk := dk'; sv := {| pj := fst pc; cache := cache (sv w); ds := d1 |}; ebuf := ebuf w; dirty := dirty w |} in
+    k_live_cleared A fx w w' = false -> k_unhidden A w w' = false ->
+    inv w' (vapply v ps1).
+  Proof.
+    intros I Hgood Hsame. cbn zeta.
+    set (new := all_errs A (fst pc)).
+    set (d1 := if snd pc then fst (push_all_again (fix12a fx) (ds (sv w)) new) else ds (sv w)).
+    set (ps1 := if snd pc then snd (push_all_again (fix12a fx) (ds (sv w)) new) else []).
+    set (w' := {| disk := dk'; sv := {| pj := fst pc; cache := cache (sv w); ds := d1 |}; ebuf := ebuf w; dirty := dirty w |}).
+    intros Hlc Hun.
+    assert (Hsaved1 : saved d1 = if snd pc then new else saved (ds (sv w))) by (unfold d1; destruct (snd pc); reflexivity).
+    assert (Hlive1 : live d1 = live (ds (sv w))) by (unfold d1; destruct (snd pc); reflexivity).
+    pose proof (i_view _ _ I) as Iv.
+    constructor; cbn [w' disk sv pj ds cache ebuf dirty].
+    - exact Hgood.
+    - intros g. rewrite Hsaved1. destruct (snd pc) eqn:Ec; [apply vget_all_errs|]. rewrite (i_saved _ _ I). symmetry. apply Hsame. reflexivity.
+    - rewrite Hsaved1. destruct (snd pc); [apply all_errs_nonempty|apply (i_saved_ne _ _ I)].
+    - apply (i_cache _ _ I).
+    - apply (i_open _ _ I).
+    - intros g. rewrite Hlive1. change (syn_of w' g) with (syn_of w g). specialize (Iv g).
+      assert (Hsw' : saved_of A w' g = vget (saved d1) g) by reflexivity.
+      unfold ps1. destruct (snd pc) eqn:Ec.
+      + rewrite Hsaved1. apply push_all_file_ok; [exact Iv|apply (i_saved_ne _ _ I)|apply all_errs_nonempty| |].
+        * intros Hdty Hl. destruct (class_conds w w' g Hlc Hun Hdty Hdty) as [C1 _].
+          { intros _. unfold live_has, ahas. cbn [w' sv ds]. rewrite Hlive1. destruct (aget (live (ds (sv w))) g); [reflexivity|contradiction]. }
+          specialize (C1 Hl). rewrite Hsw' in C1. cbn [w' sv ds] in C1. rewrite Hsaved1 in C1. exact C1.
+        * intros Hdty Hl. destruct (class_conds w w' g Hlc Hun Hdty Hdty) as [_ C2].
+          { intros Hx. contradiction. }
+          specialize (C2 Hl). rewrite !Hsw' in C2. rewrite Hsaved1 in C2. exact C2.
+      + cbn [vapply fold_left]. rewrite Hsaved1. exact Iv.
+  Qed.
+
+  Definition item_disk (dk : amap txt) (i : witem A) : amap txt :=
+    match i with WC f t | WM f t => aset dk f t | WD f => adel dk f end.
+
+  Lemma act_watched_one_eq w i : aget (live (ds (sv w))) (witem_file A i) = None ->
+    act A fx w (AWatched [i]) =
+    let pc := handle_events A fx (item_disk (disk w) i) (pj (sv w)) [witem_ev A i] in
+    ({| disk := item_disk (disk w) i;
+        sv := {| pj := fst pc; cache := cache (sv w);
+                 ds := if snd pc then fst (push_all_again (fix12a fx) (ds (sv w)) (all_errs A (fst pc))) else ds (sv w) |};
+        ebuf := ebuf w; dirty := dirty w |},
+     if snd pc then snd (push_all_again (fix12a fx) (ds (sv w)) (all_errs A (fst pc))) else []).
+  Proof.
+    intros Hl. cbn [act map app]. unfold steps.
+    destruct i as [f t|f t|f]; cbn [witem_disk witem_ev witem_file item_disk fold_left fst snd step disk sv ebuf dirty app] in *;
+      rewrite (did_watched_one _ _ _ _ Hl); reflexivity.
+  Qed.
+
+  Lemma act_watched_inv w v l :
+    inv w v -> conf_action A w (AWatched l) = true ->
+    let w' := fst (act A fx w (AWatched l)) in
+    k_outside A (AWatched l) = false ->
+    k_live_cleared A fx w w' = false -> k_unhidden A w w' = false -> k_watched_dirty A w (AWatched l) = false ->
+    k_stale_ref A w' = false -> k_empty_shortcut A fx w (AWatched l) = false ->
+    inv w' (vapply v (snd (act A fx w (AWatched l)))).
+  Proof.
+    intros I Hconf. cbn zeta. unfold conf_action in Hconf. apply andb_true_iff in Hconf as [Hconf Hlen].
+    destruct l as [|i [|i2 l2]]; [|clear Hlen|discriminate].
+    - (* empty notification: nothing happens *)
+      intros _ _ _ _ _ _. cbn [act map app]. unfold steps. cbn [fold_left fst snd step did_watched is_nil]. cbn [app vapply fold_left].
+      destruct I as [Ig Is Ine Ic Io Iv]. constructor; cbn [disk sv pj ds cache ebuf dirty]; assumption.
+    - intros Hout Hlc Hun Hwd Hst Hemp.
+      set (f := witem_file A i).
+      assert (Hd : in_dir A f = true).
+      { unfold k_outside in Hout. cbn [action_files map existsb] in Hout. rewrite orb_false_r in Hout.
+        apply negb_false_iff in Hout. exact Hout. }
+      assert (Hl : aget (live (ds (sv w))) f = None).
+      { destruct (aget (live (ds (sv w))) f) as [l0|] eqn:El; [|reflexivity]. exfalso.
+        destruct (live_some_dirty w v f l0 I El) as [Hdty _].
+        unfold k_watched_dirty in Hwd. cbn [existsb] in Hwd. rewrite orb_false_r in Hwd. fold f in Hwd.
+        apply fmem_in in Hdty. rewrite Hdty in Hwd. unfold live_has, ahas in Hwd. rewrite El in Hwd. discriminate. }
+      revert Hlc Hun Hst. rewrite (act_watched_one_eq w i Hl). cbn zeta. cbn [fst snd]. intros Hlc Hun Hst.
+      set (pc := handle_events A fx (item_disk (disk w) i) (pj (sv w)) [witem_ev A i]) in *.
+      apply stale_ref_false in Hst. cbn [sv pj] in Hst.
+      unfold k_empty_shortcut in Hemp. cbn [existsb] in Hemp. rewrite orb_false_r in Hemp.
+      apply (watched_common w v (item_disk (disk w) i) pc I); [| |exact Hlc|exact Hun].
+      + destruct i as [f0 t|f0 t|f0]; cbn [witem_file item_disk witem_ev] in *; subst f.
+        * apply (he_created A fx HA (disk w) (pj (sv w)) f0 t (i_good _ _ I) Hd Hemp). exact Hst.
+        * unfold conf_action_full in Hconf. cbn [map witem_file forallb] in Hconf. rewrite !andb_true_r in Hconf.
+          apply andb_true_iff in Hconf as [_ Hconf].
+          assert (Hpres : aget (disk w) f0 <> None) by (unfold ahas in Hconf; destruct (aget (disk w) f0); [discriminate|discriminate]).
+          apply (he_changed A fx HA (disk w) (pj (sv w)) f0 t (i_good _ _ I) Hd Hpres Hemp). exact Hst.
+        * apply (he_deleted A fx HA (disk w) (pj (sv w)) f0 (i_good _ _ I) Hd). exact Hst.
+      + destruct i as [f0 t|f0 t|f0]; cbn [witem_file item_disk witem_ev] in *; subst f.
+        * intros Hc. pose proof (proj1 (he_created A fx HA (disk w) (pj (sv w)) f0 t (i_good _ _ I) Hd Hemp)) as H1.
+          fold pc in H1. congruence.
+        * unfold conf_action_full in Hconf. cbn [map witem_file forallb] in Hconf. rewrite !andb_true_r in Hconf.
+          apply andb_true_iff in Hconf as [_ Hconf].
+          assert (Hpres : aget (disk w) f0 <> None) by (unfold ahas in Hconf; destruct (aget (disk w) f0); [discriminate|discriminate]).
+          apply (he_changed A fx HA (disk w) (pj (sv w)) f0 t (i_good _ _ I) Hd Hpres Hemp).
+        * intros Hc. pose proof (proj1 (he_deleted A fx HA (disk w) (pj (sv w)) f0 (i_good _ _ I) Hd)) as H1.
+          fold pc in H1. congruence.
+  Qed.
+
+  (* ---------- one conformant, class-free action keeps the invariant ---------- *)
+  Lemma act_inv w v a :
+    inv w v -> conf_action A w a = true -> classes_step A fx w a (fst (act A fx w a)) = [] ->
+    inv (fst (act A fx w a)) (vapply v (snd (act A fx w a))).
+  Proof.
+    intros I Hconf Hcl. apply classes_step_nil in Hcl.
+    destruct Hcl as [Hout [Hlc [Hun [Hcr [Hwd [Hst Hemp]]]]]].
+    destruct a as [f|f t|f|f|l|e].
+    - apply act_open_inv; [exact I|]. unfold k_outside in Hout. cbn in Hout. rewrite orb_false_r in Hout. apply negb_false_iff in Hout. exact Hout.
+    - apply act_change_inv. exact I.
+    - apply act_save_inv; try assumption. unfold k_outside in Hout. cbn in Hout. rewrite orb_false_r in Hout. apply negb_false_iff in Hout. exact Hout.
+    - apply act_close_inv; try assumption. unfold k_outside in Hout. cbn in Hout. rewrite orb_false_r in Hout. apply negb_false_iff in Hout. exact Hout.
+    - apply act_watched_inv; assumption.
+    - discriminate Hconf.
+  Qed.
+
+  Lemma history_inv h : forall w v,
+    inv w v -> scan_history A fx (conf_action A) w h = (true, []) ->
+    inv (fst (run_from A fx (w, []) h)) (vapply v (snd (run_from A fx (w, []) h))).
+  Proof.
+    induction h as [|a h IH]; intros w v I Hscan; [exact I|].
+    cbn [scan_history] in Hscan.
+    destruct (scan_history A fx (conf_action A) (fst (act A fx w a)) h) as [c ks] eqn:Es.
+    injection Hscan as Hc Hk. apply andb_true_iff in Hc as [Hc1 Hc2]. subst c.
+    apply app_nil_inv in Hk as [Hk1 Hk2]. subst ks.
+    pose proof (act_inv w v a I Hc1 Hk1) as I1.
+    specialize (IH _ _ I1 Es).
+    unfold run_from in *. cbn [fold_left fst snd app]. destruct (act A fx w a) as [w1 ps1] eqn:Ea. cbn [fst snd] in *.
+    (* the accumulated stream starts with ps1 *)
+    assert (Hgen : forall l wp0 pre,
+              fold_left (fun (wp : world A * list publish) a0 => let '(w', ps) := act A fx (fst wp) a0 in (w', snd wp ++ ps)) l (wp0, pre) =
+              (fst (fold_left (fun (wp : world A * list publish) a0 => let '(w', ps) := act A fx (fst wp) a0 in (w', snd wp ++ ps)) l (wp0, [])),
+               pre ++ snd (fold_left (fun (wp : world A * list publish) a0 => let '(w', ps) := act A fx (fst wp) a0 in (w', snd wp ++ ps)) l (wp0, [])))).
+    { induction l as [|x l IHl]; intros wp0 pre; cbn [fold_left fst snd]; [rewrite app_nil_r; reflexivity|].
+      destruct (act A fx wp0 x) as [w2 ps2]. rewrite (IHl w2 (pre ++ ps2)), (IHl w2 ([] ++ ps2)). cbn [fst snd app].
+      rewrite app_assoc. reflexivity. }
+    rewrite Hgen. cbn [fst snd]. rewrite vapply_app. exact IH.
+  Qed.
+
+  Lemma run_from_prefix h w pre :
+    run_from A fx (w, pre) h = (fst (run_from A fx (w, []) h), pre ++ snd (run_from A fx (w, []) h)).
+  Proof.
+    unfold run_from. revert w pre. induction h as [|x l IHl]; intros w pre; cbn [fold_left fst snd]; [rewrite app_nil_r; reflexivity|].
+    destruct (act A fx w x) as [w2 ps2]. rewrite (IHl w2 (pre ++ ps2)), (IHl w2 ([] ++ ps2)). cbn [fst snd app].
+    rewrite app_assoc. reflexivity.
+  Qed.
+
+  (* ---------- the main theorem ---------- *)
+  Theorem guarded_view (dk : amap txt) (h : list (action A)) :
+    guard A fx dk h = true ->
+    forall f, Permutation (view (snd (run A fx dk h)) f) (demanded A fx (fst (run A fx dk h)) f).
+  Proof.
+    intros Hg f. unfold guard, conformant, classes in Hg. apply andb_true_iff in Hg as [Hc Hk].
+    destruct (scan_history A fx (conf_action A) (fst (init_world A fx dk)) h) as [c ks] eqn:Es. cbn [fst snd] in *. subst c.
+    destruct ks; [|discriminate].
+    pose proof (history_inv h _ _ (init_inv dk) Es) as I.
+    unfold run. destruct (init_world A fx dk) as [w0 ps0] eqn:E0. cbn [fst snd] in *.
+    rewrite run_from_prefix. cbn [fst snd]. unfold view. rewrite vapply_app.
+    set (wf := fst (run_from A fx (w0, []) h)) in *. set (vf := vapply (vapply [] ps0) (snd (run_from A fx (w0, []) h))) in *.
+    pose proof (i_view _ _ I f) as Iv. unfold demanded, fresh_view.
+    assert (Hperm : Permutation (vget (saved (ds (sv wf))) f) (vget (all_errs A (init_proj A fx (disk wf))) f)).
+    { rewrite (i_saved _ _ I), vget_all_errs. apply good_fresh. apply (i_good _ _ I). }
+    unfold file_ok, syn_of in Iv. destruct (fmem f (dirty wf)) eqn:Ed.
+    - destruct (aget (ebuf wf) f) as [b|] eqn:Eb.
+      + destruct (is_nil (syn A b)); destruct Iv as [_ Iv]; rewrite Iv; [|apply Permutation_refl].
+        unfold nonsyn. apply perm_filter. exact Hperm.
+      + exfalso. apply fmem_in in Ed. apply (i_open _ _ I) in Ed. congruence.
+    - destruct Iv as [_ Iv]. rewrite Iv. exact Hperm.
+  Qed.
+
+  Lemma guarded_inv (dk : amap txt) (h : list (action A)) :
+    guard A fx dk h = true -> inv (fst (run A fx dk h)) (vapply [] (snd (run A fx dk h))).
+  Proof.
+    intros Hg. unfold guard, conformant, classes in Hg. apply andb_true_iff in Hg as [Hc Hk].
+    destruct (scan_history A fx (conf_action A) (fst (init_world A fx dk)) h) as [c ks] eqn:Es. cbn [fst snd] in *. subst c.
+    destruct ks; [|discriminate].
+    pose proof (history_inv h _ _ (init_inv dk) Es) as I.
+    unfold run. destruct (init_world A fx dk) as [w0 ps0] eqn:E0. cbn [fst snd] in *.
+    rewrite run_from_prefix. cbn [fst snd]. rewrite vapply_app. exact I.
+  Qed.
+
+  (* the view in terms of the server's own maps, exactly *)
+  Theorem guarded_exact (dk : amap txt) (h : list (action A)) :
+    guard A fx dk h = true ->
+    let w := fst (run A fx dk h) in
+    forall f, view (snd (run A fx dk h)) f =
+              match aget (live (ds (sv w))) f with
+              | Some e => e
+              | None => if fmem f (dirty w) then nonsyn (vget (saved (ds (sv w))) f) else vget (saved (ds (sv w))) f
+              end.
+  Proof.
+    intros Hg w f. pose proof (i_view _ _ (guarded_inv dk h Hg) f) as Iv. fold w in Iv. unfold view.
+    unfold file_ok in Iv. destruct (fmem f (dirty w)).
+    - destruct (is_nil (syn_of w f)); destruct Iv as [Iv1 Iv2]; rewrite Iv1; exact Iv2.
+    - destruct Iv as [Iv1 Iv2]. rewrite Iv1. exact Iv2.
+  Qed.
+
+  Theorem incremental_eq_fresh (dk : amap txt) (h : list (action A)) :
+    guard A fx dk h = true -> dirty (fst (run A fx dk h)) = [] ->
+    forall f, Permutation (view (snd (run A fx dk h)) f) (fresh_view A fx (disk (fst (run A fx dk h))) f).
+  Proof.
+    intros Hg Hd f. pose proof (guarded_view dk h Hg f) as H. unfold demanded in H. rewrite Hd in H. exact H.
+  Qed.
+
+  Theorem unsaved_view (dk : amap txt) (h : list (action A)) (f : file) :
+    guard A fx dk h = true -> In f (dirty (fst (run A fx dk h))) ->
+    exists b, aget (ebuf (fst (run A fx dk h))) f = Some b /\
+              Permutation (view (snd (run A fx dk h)) f)
+                          (if is_nil (syn A b) then nonsyn (fresh_view A fx (disk (fst (run A fx dk h))) f) else syn A b).
+  Proof.
+    intros Hg Hd. pose proof (guarded_view dk h Hg f) as H. pose proof (i_open _ _ (guarded_inv dk h Hg) f Hd) as Ho.
+    unfold demanded in H. apply fmem_in in Hd. rewrite Hd in H.
+    destruct (aget (ebuf (fst (run A fx dk h))) f) as [b|]; [|congruence]. exists b. auto.
+  Qed.
 End Inv.
+
+(* the boolean comparison used by the executable observables is complete for permutations *)
+Lemma ecount_perm e a b : Permutation a b -> ecount e a = ecount e b.
+Proof. intros H. unfold ecount. apply Permutation_length. apply perm_filter. exact H. Qed.
+
+Lemma perm_eqb_of_perm a b : Permutation a b -> perm_eqb a b = true.
+Proof.
+  intros H. unfold perm_eqb. apply forallb_forall. intros e _. apply Nat.eqb_eq. apply ecount_perm. exact H.
+Qed.
